@@ -65,6 +65,11 @@ func (k Keeper) GetRewardDenoms(ctx sdk.Context, poolId uint64) []string {
 
 	if poolInfo.EnableEdenRewards {
 		keys = append(keys, ptypes.Eden)
+	} else if _, found := k.GetPoolRewardInfo(ctx, poolId, ptypes.Eden); found {
+		// Eden was distributed to this pool before its Eden rewards were disabled: users' checkpoints
+		// must keep following their balance, otherwise shares committed while disabled are credited
+		// with the whole accumulated reward per share once the rewards are enabled again
+		keys = append(keys, ptypes.Eden)
 	}
 
 	for _, denom := range poolInfo.ExternalRewardDenoms {
